@@ -134,6 +134,21 @@ func svcSend(id string, callback map[string]any) {
 
 // ---------------------------------------------------------------- ids
 
+// strictID: ids of the shape every agent registration produces; only for these the check
+// DEMANDS that the data is stored (a repair may well refuse more than the bare minimum,
+// e.g. "C:" or "a\\b").
+func strictID(id string) bool {
+	if id == "" || len(id) > 64 {
+		return false
+	}
+	for _, r := range id {
+		if !(r >= '0' && r <= '9' || r >= 'a' && r <= 'z' || r >= 'A' && r <= 'Z' || r == '_' || r == '-') {
+			return false
+		}
+	}
+	return true
+}
+
 func validID(id string) bool {
 	return id != "" && id != "." && id != ".." && !strings.ContainsAny(id, "/\x00")
 }
@@ -321,7 +336,7 @@ func checkB(c CaseB) *core.Violation {
 				if contained {
 					p.allowFile(target, mustEqual(op.Data))
 					st, err := os.Lstat(target)
-					must = len(id) <= 200 && plainComponents([]string{name}) && !strings.Contains(name, "/") && (err != nil || !st.IsDir())
+					must = strictID(id) && plainComponents([]string{name}) && !strings.Contains(name, "/") && (err != nil || !st.IsDir())
 				}
 				if mode == "ws" {
 					p.allowFile(w.logFile(id), appendOnlyContaining())
@@ -370,7 +385,7 @@ func checkB(c CaseB) *core.Violation {
 			if v := w.judge(i, desc, p); v != nil {
 				return v
 			}
-			if valid {
+			if strictID(id) {
 				if _, ok := w.snap.files[w.logFile(id)]; !ok {
 					return core.V("DemonAddOutput|no-log-file", "step %d (%s): %s does not exist after the call", i, desc, w.rel(w.logFile(id)))
 				}
